@@ -14,7 +14,8 @@ CONFIG = {'gen': ['NbnsDispatch', 'ServerFacts', 'ServerFacts2'],
          'four times; if any waiter gets nothing, five further single responses to fresh ids must be delivered (liveness of the read '
          'loop); the stop scenario of the client includes an id that is answered continuously and never collected. Half of the LLMNR '
          'server scenarios (all stop scenarios) run with the HandlerDescribePacket of the library (which logs under logger.Lock) ahead of '
-         'the answering handler and with debug mode on. In the LLMNR scenarios a catch-all handler is registered behind the answering handler (which returns false): it must never run, a second response to an id is a violation.',
+         'the answering handler and with debug mode on. In the LLMNR scenarios a catch-all handler is registered behind the answering '
+         'handler (which returns false): it must never run, a second response to an id is a violation.',
  'assumptions': ["a handler goroutine's bytes are either a window of the loop buffer or its own copy, and the copy is taken in the loop "
                  'body before the `go` statement: extracted facts ServerFacts (taint of the `go` arguments and of what a `go func` literal '
                  'captures, from buffers made outside the loop; llmnr.DecodeMessage accepted as non-retaining by a syntactic check of '
